@@ -199,6 +199,7 @@ def tree_check(work, pid, oracle, level_text, gen_opts=None, need=None, cases_fn
     sizes = collections.Counter()
     kinds = collections.Counter()
     gv_false = 0
+    certs = collections.defaultdict(set)
     for it in run_items:
         if it.get('g') is not None:
             feat.update(it['g'].features)
@@ -211,6 +212,9 @@ def tree_check(work, pid, oracle, level_text, gen_opts=None, need=None, cases_fn
                 distinct.add((it['text'], entry, tuple(toks), bits))
             if model.get('gv') is False:
                 gv_false += 1
+            for ck_, cv_ in model.items():
+                if ck_.startswith('cert_') and cv_:
+                    certs[ck_].add(it['text'])
             if cmp_ is not None:
                 disagreements.append({'grammar': it['text'], 'entry': entry, 'tokens': toks, 'bits': bits, 'what': cmp_})
             o = oracle(it, case, impl, model)
@@ -275,6 +279,8 @@ def tree_check(work, pid, oracle, level_text, gen_opts=None, need=None, cases_fn
         'grammars_generated': len(all_items), 'grammars_accepted_and_run': len(run_items),
         'feature_histogram': dict(feat), 'input_size_histogram': {str(k): v for k, v in sorted(sizes.items())},
         'result_kinds': dict(kinds), 'model_ghost_invalid_cases': gv_false,
+        'theorem_hypotheses_evaluated': {'ghost_defined(cases)': evals - gv_false,
+                                         **{k: '%d of %d programs' % (len(v), len(run_items)) for k, v in certs.items()}},
         'known_finding_hits': kf.hits_summary(),
         'samples': samples,
     }
@@ -415,10 +421,16 @@ def analysis_check(work, pid, level_text):
         head = k2_todo[:60]
         k2_todo = head + ck.rng.sample(k2_todo[60:], k2_cap - len(head))
     mres = k2.run_model([x[2] for x in k2_todo]) if k2_todo else []
+    certs = collections.Counter()
     for (text, r, sx, ids), m in zip(k2_todo, mres):
         if m['r'] != 'ok':
             k2dis.append({'grammar': text, 'what': 'model result ' + m['r']})
             continue
+        cf = m.get('cert_first')
+        if cf is not None:
+            certs['first: ids unique=%s productive=%s closed=%s' % (cf['wf_ids'], cf['productive'], cf['closed'])] += 1
+            if pid == 'C09' and cf['wf_ids'] and cf['productive'] and not cf['closed']:
+                failures.append({'grammar': text, 'what': 'first sets are not closed under the first-set inclusions (hypothesis first_closed of theorem C09_first_sets_exact is false), so some derivable head token is missing'})
         df = k2.compare(r['dump'], r['diags'], m, ids)
         if df:
             k2dis.append({'grammar': text, 'what': df[0], 'all': df[:4]})
@@ -441,6 +453,7 @@ def analysis_check(work, pid, level_text):
         'evaluations': evals, 'distinct_nontrivial': len(distinct),
         'rule': 'grammars: repo fixtures/examples, random unconstrained small grammars (recursion, hidden left recursion, nullable constructs, parts), random mostly-LL(1) grammars%s; evaluated = reduced grammars that passed name resolution; non-trivial = more than one rule or at least one LL(1) conflict, distinct by text' % ('' if quick else ', exhaustive small space'),
         'input_kinds': dict(kinds), 'samples': samples, 'exhaustive': False,
+        'certificates': dict(certs),
     }
     ck.assumptions = ['reference sets/verdicts/dominators computed by tools/textbook.py on a BNF built from the typed view, names re-bound by name']
     ck.finish()
